@@ -1,23 +1,45 @@
 /-
   C01 — JSON text round-trip is lossless and canonical.
 
-  Proved here: the string-escaping core. Model JV.Model.JsonEscape = `escape_string` of
-  json_encoders.hpp (tied to the real function by the `jt esc` correspondence stream, including its
-  error behaviour on malformed UTF-8 and both option flags); Spec reader = JV.Spec.Rfc8259.parseChars
-  (the `char` production of RFC 8259 §7). With escape_all_non_ascii off, for EVERY byte string the
-  escaped text is read back by a strict RFC 8259 string reader as exactly the original bytes, under
-  either setting of escape_solidus.
+  Proved here, for every input:
+  (a) the string-escaping core. Model JV.Model.JsonEscape = `escape_string` of json_encoders.hpp (tied to the real
+      function by the `jt esc` correspondence stream, including its error behaviour on malformed UTF-8 and both option
+      flags); Spec reader = JV.Spec.Rfc8259.parseChars (the `char` production of RFC 8259 §7). With
+      escape_all_non_ascii off, for EVERY byte string the escaped text is read back by a strict RFC 8259 string reader as
+      exactly the original bytes, under either setting of escape_solidus (`escape_unescape`, `escape_total`, `u4_decodes`).
+  (b) the serializers. Model JV.Model.JsonEncode = `basic_compact_json_encoder` (`compact`, `compactS sol`) and
+      `basic_json_encoder` (`pretty o`: indent_size, indent_char, new_line_chars, spaces_around_colon/comma,
+      pad_inside_object_braces/array_brackets, all five line-split options with all three kinds, line_length_limit,
+      escape_solidus), over the value type of the reference parser (numbers by their printed text). Both are tied to
+      `dump` / `dump_pretty` byte for byte by the `encoder-model` correspondence stream (values restricted to integers,
+      bigint-tagged big numbers, valid UTF-8 strings of every escape class, arrays, objects of json and ojson).
+      * `compact_parses_back` / `compactS_parses_back`: parse(dump v) = v — the RFC 8259 reference parser, under ANY
+        flags (comments, trailing commas) and any depth limit ≥ depth v, reads the compact text of every well-formed v
+        (number literals are RFC 8259 numbers, strings and member names valid UTF-8; any nesting, duplicate and empty
+        member names included) back as exactly v; hence the output is strict RFC 8259 (flags all off).
+      * `compact_canonical`: dump(parse(dump v)) = dump v.
+      * `pretty_only_adds_whitespace` (+ `_wf`, `_default`): for every option record whose new_line_chars and indent_char
+        are RFC 8259 white space, deleting white space outside string literals from the indented text gives the compact text.
+      * `pretty_parses_back`, `pretty_canonical`: parse(dump_pretty v) = v and dump_pretty(parse(dump_pretty v)) =
+        dump_pretty v for the same option records (every combination of the layout options), any parser flags.
+      Helper lemmas: Proofs/JsonNumberText (the number reader is local), Proofs/JsonEncodeParse, Proofs/JsonEncodeStrip,
+      Proofs/JsonEncodeLoose (the parser reads every white-space-padded rendering back; the indenting encoder writes one).
 
-  Decided per case on the real code, not proved (see evidence): escape_all_non_ascii = true
-  (\uXXXX and surrogate-pair arithmetic; the model covers it and is tied, the read-back is judged by
-  the Lean reference reader on every generated string incl. U+FFFF/U+10000 boundaries), the compact
-  and pretty encoders' layout (pretty = compact + white space is checked textually for every option
-  record drawn), number printing (C04), and the full document round trip parse(dump v) = v,
-  dump(parse(dump v)) = dump v.
+  NOT proved (observed per case on the real code, see evidence): the statements are about the Lean models and the Lean
+  reference parser — that the models ARE the C++ encoders is checked byte for byte on the generated inputs only, and
+  jsoncons' own parser is compared with the reference (C02), not modelled; option records whose new_line_chars / indent_char
+  are not white space (the library accepts them; the output is then not JSON) are outside the theorems;
+  escape_all_non_ascii = true (\uXXXX and surrogate-pair arithmetic; the escaper model covers it and is tied, the read-back
+  is judged by the Lean reference reader on every generated string incl. U+FFFF/U+10000 boundaries; the encoder model fixes
+  it to false); number printing (C04: the literal is taken as given here); noesc-tagged strings, byte strings, half floats,
+  non-finite doubles, bignum_format other than raw; jsoncons' own parser (C02 compares it with the reference).
 -/
 import JV.Proofs.JsonEscape
+import JV.Proofs.JsonEncodeParse
+import JV.Proofs.JsonEncodeStrip
+import JV.Proofs.JsonEncodeLoose
 namespace JV.Props.C01
-open JV Model Model.JsonEscape Spec.Rfc8259
+open JV Model Model.JsonEscape Model.JsonEncode Spec.Rfc8259
 
 /-- every byte string is escaped to text that a strict RFC 8259 string reader reads back as the original
     (escape_all_non_ascii = false, any escape_solidus; `e ++ "\"" ++ rest`: the reader stops at the closing quote) -/
@@ -43,5 +65,87 @@ example : escapeString false true [34, 92, 47, 8, 12, 10, 13, 9, 1, 127, 65, 195
           92, 117, 48, 48, 48, 49, 92, 117, 48, 48, 55, 70, 65, 195, 169] := by decide
 example : escapeString true false [240, 159, 152, 128] = some [92, 117, 68, 56, 51, 68, 92, 117, 68, 69, 48, 48] := by decide
 example : escapeString true false [195] = none := by decide
+
+/-! ### the serializers (Model.JsonEncode) -/
+
+/-- parse(dump v) = v: the RFC 8259 reference parser reads the compact encoder's text back as the value, for every
+    well-formed v of any nesting, under any parser flags, provided the depth limit admits v -/
+theorem compact_parses_back (fl : Flags) (v : JT) (hw : WF v) (hd : JsonEncode.depth v ≤ fl.maxDepth) :
+    parseText fl (compact v) = some v :=
+  compactS_parses_back fl false v hw hd
+
+/-- the same under either escape_solidus setting -/
+theorem compactS_parses_back (fl : Flags) (sol : Bool) (v : JT) (hw : WF v) (hd : JsonEncode.depth v ≤ fl.maxDepth) :
+    parseText fl (compactS sol v) = some v :=
+  JsonEncode.compactS_parses_back fl sol v hw hd
+
+/-- dump(parse(dump v)) = dump v, byte for byte -/
+theorem compact_canonical (fl : Flags) (v : JT) (hw : WF v) (hd : JsonEncode.depth v ≤ fl.maxDepth) :
+    (parseText fl (compact v)).map compact = some (compact v) := by
+  rw [compact_parses_back fl v hw hd]; rfl
+
+/-- the indenting encoder adds only white space outside string literals, whatever the layout options (indentation, new-line
+    characters, spaces around ':' and ',', padding, line splits, line length limit); number texts without white space or quote -/
+theorem pretty_only_adds_whitespace (o : PrettyOpts) (ho : WsLayout o) (v : JT) (h : plainNums v = true) :
+    stripWsOutsideStrings (pretty o v) = compactS o.solidus v :=
+  strip_pretty o ho v h
+
+theorem pretty_only_adds_whitespace_wf (o : PrettyOpts) (ho : WsLayout o) (v : JT) (hw : WF v) :
+    stripWsOutsideStrings (pretty o v) = compactS o.solidus v :=
+  strip_pretty o ho v (wf_plainNums v hw)
+
+/-- with the default options of json_options -/
+theorem pretty_only_adds_whitespace_default (v : JT) (hw : WF v) : stripWsOutsideStrings (pretty {} v) = compact v :=
+  strip_pretty {} ⟨by decide, by decide⟩ v (wf_plainNums v hw)
+
+/-- so the indented text, white space outside strings removed, parses back to v -/
+theorem pretty_stripped_parses_back (fl : Flags) (o : PrettyOpts) (ho : WsLayout o) (v : JT) (hw : WF v)
+    (hd : JsonEncode.depth v ≤ fl.maxDepth) : parseText fl (stripWsOutsideStrings (pretty o v)) = some v := by
+  rw [pretty_only_adds_whitespace_wf o ho v hw]
+  exact JsonEncode.compactS_parses_back fl o.solidus v hw hd
+
+/-- parse(dump_pretty v) = v: the reference parser reads the indenting encoder's text back as the value, for every layout
+    (indent, new-line characters, spaces, padding, the five line-split options, line length limit) and any parser flags -/
+theorem pretty_parses_back (fl : Flags) (o : PrettyOpts) (ho : WsLayout o) (v : JT) (hw : WF v)
+    (hd : JsonEncode.depth v ≤ fl.maxDepth) : parseText fl (pretty o v) = some v :=
+  JsonEncode.pretty_parses_back fl o ho v hw hd
+
+/-- dump_pretty(parse(dump_pretty v)) = dump_pretty v, byte for byte -/
+theorem pretty_canonical (fl : Flags) (o : PrettyOpts) (ho : WsLayout o) (v : JT) (hw : WF v)
+    (hd : JsonEncode.depth v ≤ fl.maxDepth) : (parseText fl (pretty o v)).map (pretty o) = some (pretty o v) := by
+  rw [pretty_parses_back fl o ho v hw hd]; rfl
+
+/-! ### non-vacuity: {"a":[1,-2.5e3,"x\n",{"b":null}],"k":true} -/
+def exDoc : JT :=
+  .obj [([97], .arr [.num [49], .num [45, 50, 46, 53, 101, 51], .str [120, 10], .obj [([98], .null)]]), ([107], .bool true)]
+
+example : WF exDoc := by decide
+example : JsonEncode.depth exDoc = 3 := by decide
+example : compact exDoc =
+    [123, 34, 97, 34, 58, 91, 49, 44, 45, 50, 46, 53, 101, 51, 44, 34, 120, 92, 110, 34, 44, 123, 34, 98, 34, 58, 110, 117, 108, 108,
+     125, 93, 44, 34, 107, 34, 58, 116, 114, 117, 101, 125] := by decide
+example : parseText ⟨false, false, 3⟩ (compact exDoc) = some exDoc :=
+  compact_parses_back _ _ (by decide) (by decide)
+/-- default options: four spaces, one member / element per line, ", " and ": " -/
+example : pretty {} exDoc =
+    [123, 10, 32, 32, 32, 32, 34, 97, 34, 58, 32, 91, 10, 32, 32, 32, 32, 32, 32, 32, 32, 49, 44, 32, 10, 32, 32, 32, 32, 32, 32, 32, 32,
+     45, 50, 46, 53, 101, 51, 44, 32, 10, 32, 32, 32, 32, 32, 32, 32, 32, 34, 120, 92, 110, 34, 44, 32, 10, 32, 32, 32, 32, 32, 32, 32, 32,
+     123, 10, 32, 32, 32, 32, 32, 32, 32, 32, 32, 32, 32, 32, 34, 98, 34, 58, 32, 110, 117, 108, 108, 10, 32, 32, 32, 32, 32, 32, 32, 32,
+     125, 10, 32, 32, 32, 32, 93, 44, 32, 10, 32, 32, 32, 32, 34, 107, 34, 58, 32, 116, 114, 117, 101, 10, 125] := by decide
+/-- same_line splits, line_length_limit 12, CR LF, padded brackets, " ," commas (checked against dump_pretty) -/
+example : pretty { indentSize := 2, colon := 0, comma := 2, padArr := true, aa := 2, oa := 2, ao := 2, oo := 2, limit := 12, newLine := [13, 10] } exDoc =
+    [123, 13, 10, 32, 32, 34, 97, 34, 58, 91, 32, 49, 32, 44, 45, 50, 46, 53, 101, 51, 32, 44, 13, 10, 32, 32, 32, 32, 34, 120, 92, 110, 34,
+     32, 44, 13, 10, 32, 32, 32, 32, 123, 34, 98, 34, 58, 110, 117, 108, 108, 125, 13, 10, 32, 32, 32, 93, 32, 44, 13, 10, 32, 32, 34, 107,
+     34, 58, 116, 114, 117, 101, 13, 10, 125] := by decide
+example : parseText ⟨true, true, 3⟩
+    (pretty { indentSize := 2, colon := 0, comma := 2, padArr := true, aa := 2, oa := 2, ao := 2, oo := 2, limit := 12, newLine := [13, 10] } exDoc) =
+    some exDoc :=
+  pretty_parses_back _ _ (by decide) _ (by decide) (by decide)
+example : stripWsOutsideStrings (pretty {} exDoc) = compact exDoc :=
+  pretty_only_adds_whitespace_default exDoc (by decide)
+/-- white space inside a string literal is kept by the stripping function -/
+example : stripWsOutsideStrings [91, 32, 34, 32, 92, 34, 32, 34, 32, 93] = [91, 34, 32, 92, 34, 32, 34, 93] := by decide
+/-- the hypotheses matter: an ill-formed number text is not read back -/
+example : parseText ⟨false, false, 8⟩ (compact (.arr [.num [48, 49]])) = none := by decide
 
 end JV.Props.C01
